@@ -60,6 +60,17 @@ class MInterp(CR.Interp):
                 return sp.Matrix([self.ev(a) for a in e["args"]])
             if segs[-1:] == ["zeros"] and len(segs) >= 2 and segs[-2] in ("Vector3", "Vector4", "Matrix3"):
                 return {"Vector3": sp.zeros(3, 1), "Vector4": sp.zeros(4, 1), "Matrix3": sp.zeros(3, 3)}[segs[-2]]
+            if segs[-1:] == ["from_diagonal"] and len(e["args"]) == 1:
+                v = self.ev(e["args"][0])
+                if isinstance(v, sp.MatrixBase):
+                    return sp.diag(*list(v))
+            if segs[-1:] == ["from_diagonal_element"] and len(e["args"]) == 3:
+                n = self.env.get("#n")
+                v = self.ev(e["args"][2])
+                if n:
+                    return sp.eye(n) * v
+            if segs[-1:] == ["identity"] and self.env.get("#n"):
+                return sp.eye(self.env["#n"])
             if segs[-2:] == ["SVD", "new"] and e["args"]:
                 self.svd_of = self.ev(e["args"][0])
                 return Opaque("svd")
@@ -83,10 +94,20 @@ class MInterp(CR.Interp):
                     return Opaque("solution", v=sub.ev(clo["body"]))
                 if recv.what == "solution" and m in ("unwrap_or", "unwrap_or_else", "unwrap", "expect", "unwrap_or_default"):
                     return recv.v
-                if recv.what == "solution" and m in ("ok",):
+                if recv.what == "solution" and m in ("ok", "map_err", "ok_or", "ok_or_else"):
+                    return recv
+                if recv.what == "svd" and m in ("unwrap", "expect", "ok_or", "ok_or_else"):
                     return recv
                 return Opaque("derived from %s" % recv.what)
             if isinstance(recv, sp.MatrixBase):
+                if m == "diagonal" and not args:
+                    return sp.Matrix([recv[i, i] for i in range(min(recv.shape))])
+                if m in ("svd", "svd_unordered") or (m in ("try_svd",)):
+                    self.svd_of = recv
+                    return Opaque("svd")
+                if m in ("lu", "cholesky", "qr", "full_piv_lu", "col_piv_qr"):
+                    self.svd_of = recv
+                    return Opaque("svd")
                 if m == "xyz" and not args:
                     return recv[:3, 0]
                 if m == "normalize" and not args:
@@ -146,6 +167,9 @@ class MInterp(CR.Interp):
             return ("struct", (A.path_segs(e.get("path")) or ["?"])[-1], out)
         if k == "Closure":
             return Opaque("closure")
+        if k == "Try":
+            v = self.ev(e["e"])
+            return v.v if isinstance(v, Opaque) and v.what == "solution" else v
         if k == "Let":
             return super().ev(e)
         try:
